@@ -45,6 +45,17 @@ def run(ctx):
         raise AnalysisError('anchor vanished: module-global list _readers in _getreader.py')
     ctx.count('registry globals', len(regs))
     nfun = 0
+    rr = mod.func('registerreader')
+    rr_globals = set()
+    for st in iter_stmts(rr.body):
+        if isinstance(st, ast.Global):
+            rr_globals |= set(st.names)
+    reset_by_registration = set()
+    for st in iter_stmts(rr.body):
+        if isinstance(st, ast.Assign):
+            for t in st.targets:
+                if isinstance(t, ast.Name) and t.id in rr_globals:
+                    reset_by_registration.add(t.id)
     for q, fn in sorted(mod.functions.items()):
         if '<locals>' in q:
             continue
@@ -63,7 +74,8 @@ def run(ctx):
                                       'registry %s is mutated outside registerreader (%s on an alias of the '
                                       'global list): auto-detection becomes history dependent'
                                       % (ev.base[1][7:], ev.extra or ev.kind)), oid='%s:%s' % (q, norm(ev.stmt)[:60]))
-        # rebinding of the global outside registerreader
+        # detection keeps no state: outside registerreader no function of the module stores any module
+        # global (a 'global X' declaration followed by a store to X) - caches of the registry go stale
         declared = set()
         for st in iter_stmts(fn.body):
             if isinstance(st, ast.Global):
@@ -75,12 +87,19 @@ def run(ctx):
             elif isinstance(st, (ast.AugAssign, ast.AnnAssign)):
                 tg = [st.target]
             for t in tg:
-                for n in ast.walk(t):
-                    if isinstance(n, ast.Name) and isinstance(n.ctx, ast.Store) and n.id in declared \
-                            and n.id in regs and not allowed and isinstance(t, ast.Name):
-                        bad = True
-                        ctx.violation(Finding('R-REGMUT', REG, q, st,
-                                              'global registry %s is rebound outside registerreader' % n.id))
+                if isinstance(t, ast.Name) and t.id in declared and not allowed:
+                    # accepted: a cache that is a function of the registry alone and that
+                    # registerreader resets (so it can never be stale)
+                    val = getattr(st, 'value', None)
+                    names = set(n.id for n in ast.walk(val) if isinstance(n, ast.Name)) if val is not None else set(['?'])
+                    pure_cache = isinstance(st, ast.Assign) and names <= (set(regs) | set(['dict', 'list', 'tuple', 'OrderedDict', 'None']))
+                    if pure_cache and t.id in reset_by_registration:
+                        continue
+                    bad = True
+                    ctx.violation(Finding('R-REGMUT', REG, q, st,
+                                          'module global %s is stored outside registerreader: reader selection keeps '
+                                          'state between calls (a cache of the registry is not refreshed by later '
+                                          'registrations)' % t.id))
         if not bad:
             ctx.ok('R-REGMUT', q, 'src/PseudoNetCDF/%s %s' % (REG, q),
                    '%d sinks examined, none on an alias of %s' % (len(events), regs))
